@@ -152,16 +152,24 @@ func ruleSetOrder(c *Ctx, r *Report) {
 				if !ok || namedTypeOf(info.Types[cl].Type) != "github.com/openconfig/gnmi/proto/gnmi.Path" || len(cl.Elts) != 0 {
 					return true
 				}
+				atomic, others := false, 0
 				for _, ft := range c.FactsAt(f, cl, false) {
 					if ft.Kind == "cond" && ft.Pos {
 						if sel, ok := ast.Unparen(ft.Cond).(*ast.SelectorExpr); ok && sel.Sel.Name == "Atomic" {
-							atomicOK = true
+							atomic = true
+							continue
 						}
 					}
+					if ft.Kind == "cond" && enclosesLexically(c, f, ft.Cond, cl) {
+						others++ // a further condition narrows "atomic ⇒ delete the prefix"
+					}
+				}
+				if atomic && others == 0 {
+					atomicOK = true
 				}
 				return true
 			})
-			r.Check(atomicOK, "ytypes.UnmarshalNotifications:atomic⇒delete-prefix", c.Pos(loop.Pos()), "the empty delete path (the prefix itself) is added exactly when n.Atomic", "the prefix-delete for atomic notifications is missing or no longer conditional on n.Atomic")
+			r.Check(atomicOK, "ytypes.UnmarshalNotifications:atomic⇒delete-prefix", c.Pos(loop.Pos()), "the empty delete path (the prefix itself) is added exactly when n.Atomic", "the prefix-delete for atomic notifications is missing, not conditional on n.Atomic, or narrowed by a further condition (e.g. only when the notification carries no explicit delete): an atomic notification then updates the existing subtree in place instead of replacing it, so entries of an ordered list keep their old order")
 		}
 	}
 }
